@@ -4,6 +4,7 @@ import (
 	"fmt"
 	"math/rand"
 	"sort"
+	"strings"
 	"time"
 )
 
@@ -116,7 +117,7 @@ type healthView struct {
 	changes       []int // seqs of steps that may change some healthy set
 }
 
-func buildHealthView(r *RunResult, targets map[string]bool) *healthView {
+func buildHealthView(r *RunResult, ix *stepIdx, targets map[string]bool) *healthView {
 	hv := &healthView{failPublished: map[string][]int{}, okReceived: map[string][]int{}, okPublished: map[string][]int{}}
 	lastOutcome := map[string]string{} // per target: "ok" / "fail" of the latest completed probe
 	pendingPublish := map[string]string{}
@@ -149,7 +150,9 @@ func buildHealthView(r *RunResult, targets map[string]bool) *healthView {
 				// hc.check (next probe) the previous outcome is published already.
 				pub := e.Seq
 				if e.Info == "lb.stateChanged" {
-					pub = nextStepSeq(evs, i)
+					// with automatic lock yields the update itself runs in a later
+					// step of the same goroutine (the one that takes the balancer's lock)
+					pub = nextStepSeqAfter(evs, ix.lockTail(e, "").Seq)
 					hv.changes = append(hv.changes, e.Seq)
 				}
 				if o := pendingPublish[e.Target]; o != "" && pub > 0 {
@@ -166,7 +169,9 @@ func buildHealthView(r *RunResult, targets map[string]bool) *healthView {
 	return hv
 }
 
-func nextStepSeq(evs []Event, i int) int {
+// nextStepSeqAfter returns the seq of the first step (or stall) event after seq.
+func nextStepSeqAfter(evs []Event, seq int) int {
+	i := sort.Search(len(evs), func(k int) bool { return evs[k].Seq >= seq })
 	for j := i + 1; j < len(evs); j++ {
 		if evs[j].Kind == "step" || evs[j].Kind == "stall" {
 			return evs[j].Seq
@@ -192,8 +197,8 @@ func checkC09(r *RunResult) []Violation {
 		targets[t] = true
 	}
 	k := len(targets)
-	hv := buildHealthView(r, targets)
 	ix := stepIndex(r.H)
+	hv := buildHealthView(r, ix, targets)
 	served := map[string]string{} // req -> target that received it
 	for i := range r.H.Events {
 		e := &r.H.Events[i]
@@ -245,13 +250,20 @@ func checkC09(r *RunResult) []Violation {
 	}
 	var claims []claimRec
 	for _, q := range w.Responses {
-		if q.Ret == 0 || q.Call < dep.Ret {
+		if q.Ret == 0 {
 			continue
 		}
-		c := ix.reqStep(q.ReqID, "lb.claim")
-		if c == 0 {
+		// every request that claimed on the (only) load balancer takes part in the
+		// rotation, also one that was issued before the deploy command returned
+		// and claimed after the install (leaving it out made two claims look
+		// adjacent that were not: false alarm of the first thorough run)
+		ce := ix.reqStepEvent(q.ReqID, "lb.claim")
+		if ce == nil {
 			continue // yield point off in this run: claim order unknown
 		}
+		// the pick runs in the step released at "lb.claim", or, with automatic
+		// lock yields, in the step that takes the balancer's lock right after it
+		c := ix.lockTail(ce, "load_balancer.go:").Seq
 		claims = append(claims, claimRec{seq: c, target: served[q.ReqID], status: q.Status, req: q.ReqID})
 	}
 	sort.Slice(claims, func(i, j int) bool { return claims[i].seq < claims[j].seq })
@@ -262,6 +274,12 @@ func checkC09(r *RunResult) []Violation {
 		switch e.Info {
 		case "lb.stateChanged", "health.updated", "health.completed", "hc.report":
 			if targets[e.Target] {
+				bounds = append(bounds, e.Seq)
+			}
+		default:
+			// automatic lock yields inside the health-check goroutines: the state
+			// change and the balancer's update run in one of these steps
+			if strings.HasPrefix(e.Info, "lock@") && strings.HasPrefix(e.Task, "hc:") {
 				bounds = append(bounds, e.Seq)
 			}
 		}
